@@ -62,20 +62,50 @@ func VerifC07_AggregateBest() { c07AggregateBest(2, 2) }
 // VerifC07_AggregateBestWide: 1..2 providers and three score levels (thorough).
 func VerifC07_AggregateBestWide() { c07AggregateBest(vnd.IntRange("n", 1, 2), 3) }
 
+// VerifC07_AggregateBestOrders: three nodes answering one after the other with three different valid
+// scores in every one of the six orders (what is held as best so far is compared with, never
+// overwritten by, a later lower score).
+func VerifC07_AggregateBestOrders() {
+	c07Orders = true
+	c07AggregateBest(3, 3)
+}
+
+// c07Orders: all nodes valid, answering in node order, scores a permutation of the levels.
+var c07Orders bool
+var c07Perm int
+
 func c07AggregateBest(n, levels int) {
-	timeout := time.Duration(vnd.I64("timeout"))
-	vnd.Assume(timeout >= 2 && timeout <= 60000) // virtual nanoseconds
+	timeout := time.Duration(100)
+	if !c07Orders {
+		timeout = time.Duration(vnd.I64("timeout"))
+		vnd.Assume(timeout >= 2 && timeout <= 60000) // virtual nanoseconds
+	}
 	providers := map[string]eth2client.AggregateAttestationProvider{}
 	provs := make([]*c07Provider, n)
 	for i := 0; i < n; i++ {
 		p := &c07Provider{name: []string{"node-a", "node-b", "node-c"}[i]}
-		p.latency = time.Duration(vnd.I64("latency"))
-		vnd.Assume(p.latency >= 0 && p.latency <= 120000)
-		p.outcome = vnd.Choose("outcome", nOutcomes)
+		if c07Orders {
+			// all three answer, one after the other, well before the soft timeout
+			p.outcome = oValid
+			p.latency = time.Duration(i + 1)
+		} else {
+			p.latency = time.Duration(vnd.I64("latency"))
+			vnd.Assume(p.latency >= 0 && p.latency <= 120000)
+			p.outcome = vnd.Choose("outcome", nOutcomes)
+		}
 		bits := bitfield.NewBitlist(8)
 		if p.outcome == oValid {
 			// 1..3 of 8 attesters included: three distinct scores
-			for k := 0; k <= vnd.Choose("included", levels); k++ {
+			included := 0
+			if c07Orders {
+				if i == 0 {
+					c07Perm = vnd.Choose("score-order", 6)
+				}
+				included = [][]int{{0, 1, 2}, {0, 2, 1}, {1, 0, 2}, {1, 2, 0}, {2, 0, 1}, {2, 1, 0}}[c07Perm][i]
+			} else {
+				included = vnd.Choose("included", levels)
+			}
+			for k := 0; k <= included; k++ {
 				bits.SetBitAt(uint64(k), true)
 			}
 		}
